@@ -3,6 +3,10 @@ import GenlmModel.Proofs.SepStart
 import GenlmModel.Proofs.Tab
 import GenlmModel.Proofs.Norm
 import GenlmModel.Proofs.TrimSem
+import GenlmModel.Proofs.Sem2
+import GenlmModel.Proofs.Sem2Bin
+import GenlmModel.Proofs.Sem2Null
+import GenlmModel.Proofs.Sem2Unary
 /-! # C06 — transformations preserve the weighted language
 Level identities / cofinality statements about the mirror models, every commutative semiring. -/
 namespace Genlm.Props.C06
@@ -17,4 +21,21 @@ alias unfold_limit := Genlm.unfold_limit
 alias injective_renaming_level_identity := Genlm.WN_rename
 alias zero_rules_irrelevant := Genlm.WN_dropZero
 alias rule_order_irrelevant := Genlm.WN_perm
+/-- terminal separation: the two grammars bound each other with a shift of one level -/
+alias separate_terminals_preserves := Genlm.separateTerminals_preserves
+alias separate_terminals_limit := Genlm.separateTerminals_limit
+/-- binarisation: cofinal with stretch factor (longest body − 1) -/
+alias binarize_preserves := Genlm.binarize_preserves
+alias binarize_limit := Genlm.binarize_limit
+alias separate_terminals_then_binarize := Genlm.separateTerminals_binarize_preserves
+/-- removal of empty rules, RELATIVE to null weights that bound / are attained by the ε-derivation sums -/
+alias push_null_preserves := Genlm.pushNull_preserves
+alias push_null_limit := Genlm.pushNull_limit
+alias push_null_empty_string_start := Genlm.pushNull_nil_start
+alias push_null_empty_string_other := Genlm.pushNull_nil_other
+alias null_weights_from_prefixed_point := Genlm.WN_nil_le_of_prefixed
+/-- removal of unary rules, RELATIVE to a closure W of the unary matrix -/
+alias unaryremove_preserves := Genlm.unaryRemove_preserves
+alias unaryremove_limit := Genlm.unaryRemove_limit
+alias unary_closure_from_prefixed_point := Genlm.UW_le_of_prefixed
 end Genlm.Props.C06
